@@ -9,6 +9,7 @@ import (
 	"encoding/json"
 	"fmt"
 	"os"
+	"strings"
 	"sync"
 	"sync/atomic"
 	"time"
@@ -104,6 +105,10 @@ func wideFailBody(n, i int) error {
 	return nil
 }
 
+func manyFailBody(mixed bool, i, code int) error {
+	return mg.Fatal(code, fmt.Sprintf("many-fail-%v-%d;", mixed, i))
+}
+
 func wideProbe() []string {
 	sizes := []int{31, 32, 33, 63, 64, 65, 100, 127, 128, 129, 200, 256, 257, 513, 1000}
 	wideDone = make([]int32, 4*len(sizes))
@@ -155,6 +160,43 @@ func wideProbe() []string {
 			}
 		}
 	}
+	// MANY failing members in one call: the propagated failure carries every member's message, and the
+	// status is the common one, or 1 when they differ (C03)
+	for _, mixed := range []bool{false, true} {
+		n := 40
+		fns := make([]interface{}, n)
+		for i := range fns {
+			code := 3
+			if mixed && i%2 == 1 {
+				code = 4
+			}
+			fns[i] = mg.F(manyFailBody, mixed, i, code)
+		}
+		var pv interface{}
+		func() {
+			defer func() { pv = recover() }()
+			mg.Deps(fns...)
+		}()
+		text := fmt.Sprint(pv)
+		missing := 0
+		for i := 0; i < n; i++ {
+			if !strings.Contains(text, fmt.Sprintf("many-fail-%v-%d;", mixed, i)) {
+				missing++
+			}
+		}
+		want := 3
+		if mixed {
+			want = 1
+		}
+		got := 1
+		if err, ok := pv.(error); ok {
+			got = mg.ExitStatus(err)
+		}
+		if pv == nil || missing != 0 || got != want {
+			bad = append(bad, fmt.Sprintf("Deps over %d failing dependencies (codes %s): propagated status %d (want %d), messages of %d failed dependencies missing (panicked: %v)",
+				n, map[bool]string{false: "all 3", true: "3 and 4"}[mixed], got, want, missing, pv != nil))
+		}
+	}
 	time.Sleep(20 * time.Millisecond)
 	for r, c := range wideDone {
 		if n := sizes[r/4]; int(c) != n {
@@ -172,12 +214,29 @@ var (
 	ceStarted [4]int32
 )
 
-func ceCancelsAndFails(ctx context.Context) error { ceCancel(); <-ctx.Done(); return ctx.Err() }
-func ceWaitsAndFails(ctx context.Context) error   { <-ctx.Done(); return ctx.Err() }
-func ceNext0()                                    { atomic.AddInt32(&ceStarted[0], 1) }
-func ceNext1()                                    { atomic.AddInt32(&ceStarted[1], 1) }
-func ceNext2()                                    { atomic.AddInt32(&ceStarted[2], 1) }
-func ceNext3()                                    { atomic.AddInt32(&ceStarted[3], 1) }
+var ceRuns [2]int32
+
+// (a second execution must not happen at all - a finished dependency is never run again; if it does, it returns at
+// once instead of waiting for a context that nobody will cancel, and the probe reports the count)
+func ceCancelsAndFails(ctx context.Context) error {
+	if atomic.AddInt32(&ceRuns[0], 1) > 1 {
+		return nil
+	}
+	ceCancel()
+	<-ctx.Done()
+	return ctx.Err()
+}
+func ceWaitsAndFails(ctx context.Context) error {
+	if atomic.AddInt32(&ceRuns[1], 1) > 1 {
+		return nil
+	}
+	<-ctx.Done()
+	return ctx.Err()
+}
+func ceNext0() { atomic.AddInt32(&ceStarted[0], 1) }
+func ceNext1() { atomic.AddInt32(&ceStarted[1], 1) }
+func ceNext2() { atomic.AddInt32(&ceStarted[2], 1) }
+func ceNext3() { atomic.AddInt32(&ceStarted[3], 1) }
 
 func ctxErrProbe() []string {
 	bad := []string{}
@@ -211,6 +270,9 @@ func ctxErrProbe() []string {
 	//  their remembered failure must fail later calls as well)
 	try("SerialDeps(cancelsAndReturnsCtxErr (already failed), next)", 2, func() { mg.SerialDeps(ceCancelsAndFails, ceNext2) })
 	try("SerialCtxDeps(fresh ctx, waitsAndReturnsCtxErr (already failed), next)", 3, func() { mg.SerialCtxDeps(context.Background(), ceWaitsAndFails, ceNext3) })
+	if a, b := atomic.LoadInt32(&ceRuns[0]), atomic.LoadInt32(&ceRuns[1]); a != 1 || b != 1 {
+		bad = append(bad, fmt.Sprintf("dependencies that failed with their context's error were executed %d and %d times (each exactly once: a finished dependency is remembered whatever its error was)", a, b))
+	}
 	return bad
 }
 
